@@ -44,7 +44,7 @@ Fwd(m, f, args) == [m |-> m, f |-> f, args |-> args]
 \* reference-like is a property of the concrete type set the class is materialised with (RefPositions; the driver
 \* re-derives it from the real parameter types and refuses to run on a disagreement).
 MutDelta == 5
-TypeSetNames == {"ints", "mixed", "rich", "refs"}
+TypeSetNames == {"ints", "mixed", "rich", "refs", "vals", "tparam"}   \* vals: struct/array/interface params, func/chan/array results; tparam: generic interface
 RefPositions(ts) == CASE ts = "rich" -> {1, 2} [] ts = "refs" -> {1, 2, 3} [] OTHER -> {}
 \* (the type sets vary method A's signature; B is always B(x int) int)
 IsRef(ts, m, shape, i, args) == IF shape.var /\ i = shape.ar THEN Len(args[i]) > 0 ELSE m = "A" /\ i \in RefPositions(ts)
@@ -58,6 +58,8 @@ AfterFor(ts, m, shape, f, args) ==
 ByTag == 7
 ByArgs(sig) == [m \in Methods |-> Args(sig[m], ByTag, IF sig[m].var THEN 1 ELSE 0)]
 ByLogs(sig) == [m \in Methods |-> <<ByArgs(sig)[m]>>]
+XArgs == <<<<ArgCode(8, 1, 0)>>>>            \* the one call of the third method X(p int)
+XLog0 == <<XArgs>>
 
 ---------------------------------------------------------------------------
 (* Frame: what no operation other than SetFunc may touch, and what a step  *)
@@ -139,6 +141,16 @@ SetFuncOK(sig, opt, funcs, logs, e) ==
 \* "... and nothing else": what another mock instance held before the history started (by0) is not touched
 OtherInstanceUntouched(by0, e) == e.by = by0
 
+\* The mocked interface has a third method X (declared so that it sorts BETWEEN A and B) that the histories never call:
+\* it is called once before the history starts.  xprev = what XCalls() showed after the previous operation; only
+\* ResetCalls may change it (it empties ALL records), every other operation -- ResetACalls, ResetBCalls, calls -- must
+\* leave it alone ("empty the corresponding records and nothing else").
+ThirdMethodFrame(xprev, e) == e.xlog = (IF e.op = "resetall" THEN << >> ELSE xprev)
+\* Inside the re-entrant function (FR, on A) the OTHER method's MCalls() is read as well: it shows B's log as it is
+\* (a mock that holds some lock across the forwarding call would hang or show something else).
+OtherMethodReadableInsideFunc(funcs, logs, e) ==
+  (e.op = "call" /\ funcs[e.m] = "FR") => e.reply.seen = <<logs["B"], logs["B"]>>    \* outer and nested invocation
+
 \* A record once returned keeps denoting the same call.  The observer RETAINS results of MCalls() (the returned slice
 \* itself, not a copy): after an operation that changed method x's log to a non-empty value it keeps what MxCalls()
 \* returned then.  snaps = the retained results so far, as [m, recs] in the order taken (recs = what they showed when
@@ -149,8 +161,10 @@ ReturnedRecordsStable(snaps, e) == e.snaps = snaps
 SnapOf(logs, e, x) == IF e.logs[x] # logs[x] /\ e.logs[x] # << >> THEN <<[m |-> x, recs |-> e.logs[x]]>> ELSE << >>
 SnapsAfter(snaps, logs, e) == snaps \o SnapOf(logs, e, "A") \o SnapOf(logs, e, "B")
 
-StepOK(sig, opt, ts, funcs, logs, by0, snaps, e) ==
+StepOK(sig, opt, ts, funcs, logs, by0, snaps, xprev, e) ==
   /\ OtherInstanceUntouched(by0, e)
+  /\ ThirdMethodFrame(xprev, e)
+  /\ OtherMethodReadableInsideFunc(funcs, logs, e)
   /\ ReturnedRecordsStable(snaps, e)
   /\ CASE e.op = "call"     -> CallOK(sig, opt, ts, funcs, logs, e)
        [] e.op = "resetm"   -> ResetEmptiesOnlyItsTarget(sig, opt, funcs, logs, e)
@@ -159,8 +173,10 @@ StepOK(sig, opt, ts, funcs, logs, by0, snaps, e) ==
        [] OTHER -> FALSE
 
 \* diagnosis only (which clause rejected a step); the verdict is StepOK
-FailedClause(sig, opt, ts, funcs, logs, by0, snaps, e) ==
+FailedClause(sig, opt, ts, funcs, logs, by0, snaps, xprev, e) ==
   IF ~OtherInstanceUntouched(by0, e) THEN "OtherInstanceUntouched"
+  ELSE IF ~ThirdMethodFrame(xprev, e) THEN "ThirdMethodFrame"
+  ELSE IF ~OtherMethodReadableInsideFunc(funcs, logs, e) THEN "OtherMethodReadableInsideFunc"
   ELSE IF ~ReturnedRecordsStable(snaps, e) THEN "ReturnedRecordsStable"
   ELSE IF e.op = "call" THEN
        LET m == e.m
